@@ -46,6 +46,7 @@ def run(tier, seed):
         failing = []
         failing += node_stream(ck, tmp, 900 if not ck.deep else 12000)
         failing += envelope_stream(ck, tmp, 60 if not ck.deep else 800)
+        failing += glue_streams(ck, tmp)
         ck.cov["rule"] = ("node stream: (class, description) with the class drawn from all node classes of the grammar and the "
                           "description generated from the tool's tables (every key, command, parameter, enum member, union alternative, "
                           "tuple arity; integers and lengths at the CBOR width boundaries incl. bignums); envelope stream: whole envelope "
@@ -57,6 +58,20 @@ def run(tier, seed):
     finally:
         shutil.rmtree(tmp, ignore_errors=True)
 
+
+
+def glue_streams(ck, tmp):
+    """the file forms around the encoder: description files as the loaders return them, and the envelope writer"""
+    import glue
+    import gen_desc
+    descs = []
+    for i in range(12 if not ck.deep else 80):
+        d = os.path.join(tmp, f"glue{i}")
+        os.makedirs(d, exist_ok=True)
+        descs.append(gen_desc.Gen(ck.rng, d, max_depth=1).envelope())
+    fails = glue.loaders_stream(ck, tmp, descs + glue.tricky_descriptions())
+    fails += glue.envelope_writer_stream(ck, tmp, interp.impl_create)
+    return fails
 
 def check_case(ck, stream, cname, desc, files, mres, sres, fails, reg):
     ires = interp.run_impl(interp.impl_encode, cname, desc)
@@ -162,6 +177,11 @@ def replay(path):
     inp = rec["input"]
     if inp is None:
         return run("quick", rec.get("seed", 0))
+    if "op" in inp:
+        import glue
+        why = glue.replay(inp, interp.impl_create)
+        print("REPRODUCED: " + why if why else "not reproduced on the current tree")
+        return 1 if why else 0
     for p, c in inp.get("files", {}).items():
         os.makedirs(os.path.dirname(p), exist_ok=True)
         with open(p, "wb") as fh:
